@@ -1366,8 +1366,33 @@ func init() {
 			"HISTORIES OF LONG-LIVED WRAPPERS (c06_hist.go; Model/HtmlWrap.v, Spec/HtmlWrapSpec.v): several tables and several *HTMLTable objects, events html.Wrap / html.New (table built through the wrapper) / by-value copy of a wrapper / the exported Table field pointed at another table (or at another wrapper around it) / Id, Class, Caption, TemplateName and the row-class generator WITH ITS CONTEXT set again (the generator's values come from the context it is registered with; a fresh closure per registration, or one shared function under different contexts) / tables built further or re-headed between renders, directly or through a wrapper pointing at them / Render and RenderTo / renders that fail part-way; EVERY successful render of a history is judged against the spec view of the table the wrapper points at at that moment and the settings it has at that moment, Coq reading the expectation off the history without any memory of earlier renders; " +
 			"a case is non-trivial when some supplied string contains a byte that needs escaping or invalid UTF-8; distinct = distinct (view, renders, outcomes)",
 		Exhaustive: "shapes (header x row-sequence up to length 3); all row sequences up to length 3 over {separator, row, twice-attached row} with a generator; all 256 single bytes, all 144 pairs over 12 hostile bytes and all atoms in six contexts; every word up to length 3 (thorough: 4) with at least one render over the eight wrapper-life events {render, failing render, point at the other table, copy by value, switch wrapper, set fields/generator, build the table further, fresh wrapper} on two tables of different shapes, each followed by a render of every wrapper; the second use of a wrapper (pointed at / copied and pointed at another table after a render) for every shape of the second table with header in {none,0,1,2 cells} and up to 2 rows",
-		Gen:        c06Gen_,
-		Run:        c06Run,
+		Gen:        c06GenTpl,
+		Run:        c06RunTpl,
 		Shrink:     c06Shrink,
 	})
+}
+
+// the first case of every run: the template as the SOURCE of the repository
+// under test has it (htmltpl.go), which Coq compares with the tree the theorem
+// c06_template_is_model is about
+func c06GenTpl(r *RNG, tier string) []json.RawMessage {
+	return append([]json.RawMessage{json.RawMessage(`{"template_from_source":true}`)}, c06Gen_(r, tier)...)
+}
+
+func c06RunTpl(spec json.RawMessage) CaseOut {
+	var probe map[string]json.RawMessage
+	if err := json.Unmarshal(spec, &probe); err == nil {
+		if _, ok := probe["template_from_source"]; ok {
+			term, err := htmlTemplateAST()
+			if err != nil {
+				// the template is no longer in the modelled subset (or not found): the theorem cannot speak about it
+				term = "[NText (B 0%nat [])]"
+				return CaseOut{Coq: "(CTpl " + term + ")", Desc: map[string]interface{}{"template_error": err.Error(), "sig": "template-outside-modelled-subset"},
+					Size: 1, Tags: []string{"template-from-source"}, Key: "tpl-error", Nontrivial: true}
+			}
+			return CaseOut{Coq: "(CTpl " + term + ")", Desc: map[string]interface{}{"template_from_source": true, "sig": "template-differs-from-recorded"},
+				Size: 1, Tags: []string{"template-from-source"}, Key: "tpl", Nontrivial: true}
+		}
+	}
+	return c06Run(spec)
 }
